@@ -1,10 +1,13 @@
 \* C20 relay level with the named deviation "payload aliases the read buffer" (seeded change m3):
 \* Faithful holds only because every corrupted forward is explained by `dev`; Intact / NoDev are violated
-\* (TLC counterexample: Recv 1, Recv 2, Open, Forward(1) -> destination 1 receives octets of datagram 2).
+\* (TLC counterexample: Recv 1, Recv 2, Open, Forward(1) -> destination 1 receives octets of datagram 2)
+\* and the deviation "the reply to a control-channel DNS query is headed by the address that was asked"
+\* (seeded change r3m3): ReplyIntact is violated for a datagram to the virtual DNS address.
 CONSTANTS
   Emit = FALSE
   MaxK = 2
   Alias = TRUE
+  ReplySubst = TRUE
 INIT Init
 NEXT Next
 INVARIANTS TypeOK Faithful Complete
